@@ -175,8 +175,13 @@ class Engine:
                 raise Unsupported("path explosion")
             try:
                 body_fn()
-            except (PathEnd, Infeasible):
+            except PathEnd:
                 pass
+            except Infeasible:
+                import os, traceback
+
+                if os.environ.get("PYVC_DEBUG"):
+                    traceback.print_exc()
 
     def feasible(self, extra, full=False):
         """Path feasibility.  For branch pruning only the quantifier-free part of
